@@ -17,6 +17,12 @@ type hidden struct {
 	Secret string
 }
 
+// Deep is only ever reflected on by package top, through mid1.MakeDeep.
+type Deep struct {
+	DeepName string
+	DeepRank int
+}
+
 // Plain never reaches reflection.
 type Plain struct {
 	Alpha string
